@@ -656,14 +656,16 @@ func (w *_assemblerRepr) asKinded(stg schema.UnionRepresentation_Kinded, kind da
 			continue
 		}
 		w2 := *w
-		goType := w.val.Field(idx).Type().Elem()
+		// The union may sit behind a pointer, e.g. when it is nullable.
+		val := (*_assembler)(w).createNonPtrVal()
+		goType := val.Field(idx).Type().Elem()
 		valPtr := reflect.New(goType)
 		w2.val = valPtr.Elem()
 		w2.schemaType = member
 
 		// Layer a new finish func on top, to set Index/Value.
 		w2.finish = func() error {
-			unionSetMember(w.val, idx, valPtr)
+			unionSetMember(val, idx, valPtr)
 			if w.finish != nil {
 				if err := w.finish(); err != nil {
 					return err
@@ -855,12 +857,14 @@ func (w *_assemblerRepr) AssignString(s string) error {
 
 			// TODO: DRY: this has much in common with the asKinded method; it differs only in that we picked idx already in a different way.
 			w2 := *w
-			goType := w.val.Field(idx).Type().Elem()
+			// The union may sit behind a pointer, e.g. when it is nullable.
+			val := (*_assembler)(w).createNonPtrVal()
+			goType := val.Field(idx).Type().Elem()
 			valPtr := reflect.New(goType)
 			w2.val = valPtr.Elem()
 			w2.schemaType = member
 			w2.finish = func() error {
-				unionSetMember(w.val, idx, valPtr)
+				unionSetMember(val, idx, valPtr)
 				if w.finish != nil {
 					if err := w.finish(); err != nil {
 						return err
